@@ -1213,7 +1213,12 @@ Definition hyp_mismatches (ks : list (lcase * bool)) : list N := hyp_mismatches_
    with atomic operands a1, a2, ... and the Excellent3 expression it means (new function name, argument
    order, constants, zero-based positions), written from the legacy function reference (Excel semantics)
    and the documentation of the new functions — not from callMigrators.  Together with [grouping] (every
-   operand stays one subtree wherever the template puts it) this fixes the intended tree of every call. *)
+   operand stays one subtree wherever the template puts it) this fixes the intended tree of every call.
+   It pins WHICH target expression a call becomes; it does not say that the target computes the legacy value:
+   for several lines it does not (mod and MOD differ in sign, round_down and ROUNDDOWN on negatives,
+   text_slice(a, -0), replace's count vs SUBSTITUTE's instance, format_number's flag vs FIXED's, ...: the
+   known findings legacy-value:* of KNOWN_FINDINGS.txt, demonstrated by the driver from the legacy engine's
+   recorded outputs). *)
 
 Definition legacy_spec : list (String.string * String.string) := [
   ("ABS(a1)", "abs(a1)"); ("AND(a1, a2)", "and(a1, a2)"); ("AVERAGE(a1, a2)", "mean(a1, a2)");
